@@ -329,6 +329,21 @@ def still_fails(build, cmds, mode, workdir, opts=(), harness=None):
         return False, out[i], other[i]
     return out[i] != other[i], out[i], other[i]
 
+def valid_history(cmds):
+    """shrinking must stay inside the contract of the node handle: NADD of an absent byte, NDEL of a present one"""
+    present = set()
+    for c in cmds:
+        t = c.split()
+        if t[0] == "NADD":
+            if t[2] in present:
+                return False
+            present.add(t[2])
+        elif t[0] == "NDEL":
+            if t[2] not in present:
+                return False
+            present.discard(t[2])
+    return True
+
 def shrink(build, cmds, mode, workdir, opts=(), harness=None, budget=150):
     """greedy delta debugging on the command list (first = NEW/NNEW and last are kept)"""
     fails, a, b = still_fails(build, cmds, mode, workdir, opts, harness)
@@ -343,6 +358,9 @@ def shrink(build, cmds, mode, workdir, opts=(), harness=None, budget=150):
             cand = cmds[:i] + cmds[i + chunk:] if i + chunk < len(cmds) else cmds[:i] + cmds[-1:]
             if len(cand) < 2 or cand[-1] != cmds[-1]:
                 cand = cmds[:i] + cmds[-1:]
+            if not valid_history(cand):
+                i += chunk
+                continue
             runs += 1
             f, a2, b2 = still_fails(build, cand, mode, workdir, opts, harness)
             if f:
